@@ -32,6 +32,7 @@ Diff(x, y) == [op |-> "diff", l |-> x, r |-> y]
 SymDiff(x, y) == [op |-> "symdiff", l |-> x, r |-> y]
 Neg(x) == [op |-> "neg", x |-> x]
 Grp(x) == [op |-> "grp", x |-> x]
+Empty == [op |-> "empty"]            \* the missing right operand of a set operator: `[a-z&&]`
 
 RECURSIVE Member(_, _)
 Member(e, v) ==
@@ -42,6 +43,7 @@ Member(e, v) ==
     [] e.op = "symdiff" -> Member(e.l, v) # Member(e.r, v)
     [] e.op = "neg"     -> ~Member(e.x, v)
     [] e.op = "grp"     -> Member(e.x, v)
+    [] e.op = "empty"   -> FALSE
 
 Bin(j, x, y) == CASE j = 1 -> Union2(x, y) [] j = 2 -> Inter(x, y) [] j = 3 -> Diff(x, y) [] j = 4 -> SymDiff(x, y)
 GrowC(L) ==
@@ -61,11 +63,17 @@ Triples == << Union3(Base(1), Base(2), Base(3)), Union3(Base(4), Neg(Base(2)), B
               Neg(Neg(Neg(Base(1)))), Diff(Diff(Base(1), Base(2)), Base(3)), Diff(Base(1), Diff(Base(2), Base(3))),
               SymDiff(SymDiff(Base(1), Base(2)), Base(3)), Neg(SymDiff(Base(1), Neg(Base(2)))) >>
 
+\* set operators whose right operand is missing (regex-syntax accepts `[x&&]`, `[x--]`, `[x~~]`)
+EmptyRight == [k \in 1..(NB * 3) |-> Bin(((k - 1) % 3) + 2, Base(((k - 1) \div 3) + 1), Empty)]
+              \o [k \in 1..NB |-> Neg(Inter(Base(k), Empty))]
+              \o [k \in 1..NB |-> Union2(Grp(Inter(Base(k), Empty)), Base((k % NB) + 1))]
+              \o << Inter(Inter(Base(1), Base(2)), Empty), Diff(Inter(Base(1), Empty), Base(2)), Inter(Neg(Base(3)), Empty) >>
+
 Phase == IOEnv.VERIF_PHASE
 Stride == atoi(IOEnv.VERIF_STRIDE)
 Offset == atoi(IOEnv.VERIF_OFFSET)
 \* all shapes of depth <= 1, the hand-picked deeper ones, and every Stride-th shape of depth 2
-Shapes == TLCEval(D1 \o Triples \o Chains
+Shapes == TLCEval(D1 \o Triples \o Chains \o EmptyRight
                   \o [k \in 1..((Len(D2) - Len(D1)) \div Stride) |-> D2[Len(D1) + ((((k - 1) * Stride) + Offset) % (Len(D2) - Len(D1))) + 1]])
 ASSUME Phase = "emit" => ndJsonSerialize(IOEnv.VERIF_OUT, [k \in DOMAIN Shapes |-> [id |-> k, e |-> Shapes[k]]])
 
